@@ -296,6 +296,19 @@ def run(rep, drv):
 			want_keys = ([None] + want_keys) if asc else (want_keys + [None])
 		if py != mo or rk != want_keys or dd != before:
 			diff('sort_dict_by_keys', 'values python=%s model=%s keys=%s' % (py, mo, rk), case, py, mo, True)
+		# values are data: None, 0, '' or False stored under a key (the None key included) are returned like any other value
+		for odd in (None, 0, '', False):
+			for none_key in (True, False):
+				dd2 = dict(list(d.items())[:2]); dd2[None if none_key else 99] = odd
+				for asc2 in (True, False):
+					rv = call(H.sort_dict_by_keys, dict(dd2), ascending=asc2)
+					ks2 = sorted([k_ for k_ in dd2 if k_ is not None], reverse=not asc2)
+					if None in dd2:
+						ks2 = ([None] + ks2) if asc2 else (ks2 + [None])
+					want2 = [dd2[k_] for k_ in ks2]
+					rk2 = call(H.sort_dict_by_keys, dict(dd2), ascending=asc2, return_values=False)
+					if not (isinstance(rv, list) and len(rv) == len(want2) and all(a_ is b_ or a_ == b_ for a_, b_ in zip(rv, want2)) and [type(a_) for a_ in rv] == [type(b_) for b_ in want2]) or rk2 != ks2:
+						diff('sort_dict_by_keys', 'sort_dict_by_keys(%r, ascending=%s) = %r (keys %r); documented: values %r in key order %r' % (dd2, asc2, rv, rk2, want2, ks2), {}, repr(rv), None, True)
 		# change_dict_key (documented to work in place)
 		if keys:
 			old = rng.choice(keys + [99]); new = rng.choice(keys + [50, 51])
